@@ -94,6 +94,72 @@ Theorem C05_real_child_meets_spec :
                 (finish 0 0 false false (pty_returncode raw) warn) = true.
 Proof. exact real_child_meets_spec. Qed.
 
+(** (c') Where warn comes from.  "warn was requested" is decided from the
+    configuration (run.warn: files, env, overrides, -w) and from the keyword
+    of the call; a keyword that is omitted OR None leaves the decision to the
+    configuration, an explicit True / False wins.  The kwarg/config merge of
+    Runner._unify_kwargs_with_config computes exactly that ... *)
+Theorem C05_opts_warn_is_requested :
+  forall ws, opts_warn ws = warn_requested ws.
+Proof. exact opts_warn_is_requested. Qed.
+
+Theorem C05_warn_keyword_table :
+  forall cfg,
+    opts_warn (mkWs cfg KwNone) = opts_warn (mkWs cfg KwOmitted) /\
+    (forall b, opts_warn (mkWs cfg (KwVal b)) = b) /\
+    opts_warn (mkWs (Some true) KwNone) = true /\
+    opts_warn (mkWs (Some false) KwNone) = false /\
+    opts_warn (mkWs None KwNone) = false.
+Proof. exact warn_keyword_table. Qed.
+
+(** ... so the flagship holds with the warn source as an input: every
+    situation x configured {unset, False, True} x keyword {omitted, None,
+    True, False}. *)
+Theorem C05_warn_source_meets_spec :
+  forall s ws,
+    spec_finish (set_warn s (warn_requested ws)) (run_outcome (set_warn s (opts_warn ws))) = true.
+Proof. exact warn_source_meets_spec. Qed.
+
+Theorem C05_real_child_warn_source_meets_spec :
+  forall e core ws,
+    match e with Exited c => 0 <= c <= 255 | Killed s => 1 <= s <= 126 end ->
+    let raw := match e with Exited c => exit_status c | Killed s => sig_status s core end in
+    spec_finish (mkSit 0 0 false false (true_status e) (warn_requested ws) false false)
+                (finish 0 0 false false (pty_returncode raw) (opts_warn ws)) = true.
+Proof. exact real_child_warn_source_meets_spec. Qed.
+
+(** The program around one task that runs one command (-w on / off, run.warn
+    configured or not, keyword of the call): its exit status is 0 when the
+    command succeeds or warn was requested, the command's code otherwise. *)
+Theorem C05_program_task_run_meets_spec :
+  forall flag cfg kw code,
+    spec_task_run flag cfg kw code (program_task_run flag cfg kw code) = true.
+Proof. exact task_run_meets_spec. Qed.
+
+Theorem C05_program_task_run_table :
+  forall code, code <> 0 ->
+    (forall cfg, program_task_run true cfg KwNone code = PReturns) /\
+    (forall cfg, program_task_run true cfg KwOmitted code = PReturns) /\
+    (forall cfg, program_task_run true cfg (KwVal false) code = PSysExit code) /\
+    (forall flag cfg, program_task_run flag cfg (KwVal true) code = PReturns) /\
+    (forall kw, program_task_run false (Some true) kw code =
+                if match kw with KwVal false => true | _ => false end then PSysExit code else PReturns) /\
+    (forall cfg kw, cfg <> Some true -> kw <> KwVal true -> program_task_run false cfg kw code = PSysExit code).
+Proof. exact task_run_table. Qed.
+
+(** Non-vacuity: run.warn = True configured, the call forwards warn=None, the
+    command exits 3: run returns the result; with warn=False it raises; and
+    `inv -w` on a task forwarding warn=None around `exit 7` exits 0. *)
+Example C05_warn_source_example :
+  run_outcome (set_warn (mkSit 0 0 false false 3 false false false) (opts_warn (mkWs (Some true) KwNone))) =
+    Return (mkRv (Some 3) false true false (Some 3)) /\
+  run_outcome (set_warn (mkSit 0 0 false false 3 false false false) (opts_warn (mkWs (Some true) (KwVal false)))) =
+    Raise RUnexpectedExit (Some (mkRv (Some 3) false true false (Some 3))) /\
+  program_task_run true None KwNone 7 = PReturns /\
+  program_task_run true None (KwVal false) 7 = PSysExit 7 /\
+  program_task_run false None KwNone 7 = PSysExit 7.
+Proof. repeat split. Qed.
+
 (** (d) The program's own exit code. *)
 Theorem C05_program_exit_code :
   forall e, spec_program e (program_run e) = true.
